@@ -37,7 +37,7 @@ vlib.known_findings = _known_with_proposed
 class P(vlib.Prop):
     pid = "C02"
     coq_dirs = ["Common", "C02", "Generated"]
-    coq_targets = ["C02/Properties.vo", "C02/Witness.vo", "C02/Harness.vo"]
+    coq_targets = ["C02/Properties.vo", "C02/Witness.vo", "C02/Harness.vo", "C02/PropCheck.vo"]
     properties_module = "C02.Properties"
     properties_file = "C02/Properties.v"
     instance_obligations = []
@@ -79,6 +79,34 @@ class P(vlib.Prop):
         # translator T1: Capacity(), linkedQueue.hasElements and the method sets of the modelled types are re-read from
         # the current source on every run; coq/C02/Obligations.v equates the model / the audited API lists with them
         vlib.go2coq(ctx, "exporter", os.path.join(_HERE, "t1_spec.json"), "C02Queue")
+
+    CLAUSES = {1: "clause-size-out-of-bounds", 2: "clause-size-nonzero-when-all-finished",
+               3: "clause-size-not-sum-of-unfinished", 4: "clause-handoff-not-exactly-once-fifo"}
+
+    def extra_checks(self, ctx):
+        """Model-independent oracle + failing-input search: the decidable clause checkers of coq/C02/PropCheck.v
+        (proved equivalent to the Prop-level clauses in PropCheckProofs.v) are evaluated inside Coq over the OBSERVED
+        history of every case — also when model and implementation merely disagree: a case that violates a clause is
+        reported as the failing input, with the violated clause as its kind."""
+        import re
+        terms = [c["term"] for c in ctx.cases]
+        if not terms:
+            return
+        failed = vlib.coq_eval_cases(ctx, "C02.PropCheck", "prop_ok", self.case_type, terms, shard=self.shard)
+        ctx.stats["propcheck.cases_checked"] = len(terms)
+        ctx.stats["propcheck.cases_violating_a_clause"] = len(failed)
+        seen = set()
+        for i in failed:
+            out = vlib.coq_eval_term(ctx, "C02.PropCheck", "prop_code %s" % terms[i]) if len(seen) < 4 else ""
+            m = re.search(r"=\s*\(?(\d+)", out)
+            k = int(m.group(1)) if m else 0
+            kind = self.CLAUSES.get(k, "clause-violated")
+            if kind in seen:
+                continue
+            seen.add(kind)
+            ctx.oracle.append({"kind": kind, "term": terms[i], "harness": ctx.cases[i]["harness"],
+                               "detail": "the observed history of the implementation violates this clause "
+                                         "(Coq checker PropCheck.prop_code = %d, independent of the model's step function)" % k})
 
     assumptions = [
         "everything between Lock and Unlock of the queue mutex is one atomic step; data guarded by the mutex is only touched inside it",
